@@ -240,6 +240,21 @@ class CacheFactory(object):
         finally:
             self.lock.release()
 
+    def purge(self, id):
+        """
+        Forgets an object whose row has been deleted.  Unlike expire()
+        this also drops the weak reference kept when caching is turned
+        off, so that a later get() cannot hand the dead object out again.
+        """
+        self.lock.acquire()
+        try:
+            if self.doCache and id in self.cache:
+                del self.cache[id]
+            if id in self.expiredCache:
+                del self.expiredCache[id]
+        finally:
+            self.lock.release()
+
     def expireAll(self):
         """
         Expires all objects, moving them all into the expired/weakref
@@ -324,6 +339,12 @@ class CacheSet(object):
     def expire(self, id, cls):
         try:
             self.caches[cls.__name__].expire(id)
+        except KeyError:
+            pass
+
+    def purge(self, id, cls):
+        try:
+            self.caches[cls.__name__].purge(id)
         except KeyError:
             pass
 
